@@ -974,9 +974,10 @@ POST_KINDS = [
     {"mode": "exc"},
 ]
 # a 200 whose body is not the answer (an acknowledgement document, a response to something else):
-# generated only when the code under test treats it as an acknowledgement (see findings/)
+# the request must still get its one terminal message (findings/C12-200-with-non-answer-body.json,
+# repaired in /repo by 03a72e1); VERIF_C12_200ACK=0 leaves these cells out
 POST_KINDS_200_ACK = [{"mode": "200", "body200": "foreign"}, {"mode": "200", "body200": "ack"}]
-GENERATE_200_NON_ANSWER = os.environ.get("VERIF_C12_200ACK", "") == "1"
+GENERATE_200_NON_ANSWER = os.environ.get("VERIF_C12_200ACK", "1") != "0"
 
 
 def race_matrix_cases(budget, rng):
